@@ -9,6 +9,7 @@ import (
 	"sort"
 	"strings"
 
+	"golang.org/x/tools/go/packages"
 	"golang.org/x/tools/go/types/typeutil"
 
 	"verif/internal/kinds"
@@ -866,6 +867,31 @@ func SpecialNames(p *load.Program, rel string) *report.RuleResult {
 						}
 						return true
 					})
+					// reserved[part], `_, ok := reserved[part]; ok`: membership in a set the package keeps in a
+					// variable it initialises with a map literal and writes nowhere
+					var sets []ast.Node = []ast.Node{x.Cond}
+					if x.Init != nil {
+						sets = append(sets, x.Init)
+					}
+					for _, sn := range sets {
+						ast.Inspect(sn, func(n2 ast.Node) bool {
+							if ix, ok := n2.(*ast.IndexExpr); ok {
+								for _, k := range constSetKeys(pk, ix.X) {
+									got[strings.TrimPrefix(guard, "in:")][k] = true
+								}
+							}
+							return true
+						})
+					}
+				}
+			case *ast.AssignStmt:
+				// `_, ok := reserved[part]` ahead of the test of ok (the normaliser hoists the if's init)
+				if strings.HasPrefix(guard, "in:") && len(x.Rhs) == 1 && len(x.Lhs) == 2 {
+					if ix, ok := unparen(x.Rhs[0]).(*ast.IndexExpr); ok {
+						for _, k := range constSetKeys(pk, ix.X) {
+							got[strings.TrimPrefix(guard, "in:")][k] = true
+						}
+					}
 				}
 			case *ast.CaseClause:
 				if strings.HasPrefix(guard, "in:") {
@@ -934,4 +960,92 @@ func nodeTextAll(n ast.Node) string {
 		return true
 	})
 	return sb.String()
+}
+
+
+// constSetKeys: e names a package-level variable initialised with a map literal whose keys are string
+// constants and whose values are all true (or of a struct type), and that is written nowhere in the
+// package: the keys are the set it stands for.
+func constSetKeys(pk *packages.Package, e ast.Expr) []string {
+	id, ok := unparen(e).(*ast.Ident)
+	if !ok {
+		return nil
+	}
+	v, ok := pk.TypesInfo.Uses[id].(*types.Var)
+	if !ok || v.Pkg() != pk.Types || v.Parent() != pk.Types.Scope() {
+		return nil
+	}
+	if _, isMap := v.Type().Underlying().(*types.Map); !isMap {
+		return nil
+	}
+	var init ast.Expr
+	written := false
+	is := func(x ast.Expr) bool {
+		li, ok := unparen(x).(*ast.Ident)
+		return ok && pk.TypesInfo.Uses[li] == v
+	}
+	for _, f := range pk.Syntax {
+		ast.Inspect(f, func(n ast.Node) bool {
+			switch x := n.(type) {
+			case *ast.ValueSpec:
+				for i, nm := range x.Names {
+					if pk.TypesInfo.Defs[nm] == v && i < len(x.Values) {
+						init = x.Values[i]
+					}
+				}
+			case *ast.AssignStmt:
+				for _, l := range x.Lhs {
+					if is(l) {
+						written = true
+					}
+					if ix, ok := unparen(l).(*ast.IndexExpr); ok && is(ix.X) {
+						written = true
+					}
+				}
+			case *ast.IncDecStmt:
+				if ix, ok := unparen(x.X).(*ast.IndexExpr); ok && is(ix.X) {
+					written = true
+				}
+			case *ast.UnaryExpr:
+				if x.Op == token.AND && is(x.X) {
+					written = true
+				}
+			case *ast.CallExpr:
+				// delete(m, k), clear(m), or the map handed to a function that may write it
+				for _, a := range x.Args {
+					if is(a) {
+						if fid, ok := unparen(x.Fun).(*ast.Ident); !ok || fid.Name != "len" {
+							written = true
+						}
+					}
+				}
+			}
+			return true
+		})
+	}
+	cl, ok := init.(*ast.CompositeLit)
+	if !ok || written {
+		return nil
+	}
+	var keys []string
+	for _, el := range cl.Elts {
+		kv, ok := el.(*ast.KeyValueExpr)
+		if !ok {
+			return nil
+		}
+		ktv := pk.TypesInfo.Types[kv.Key]
+		if ktv.Value == nil || ktv.Value.Kind() != constant.String {
+			return nil
+		}
+		vtv := pk.TypesInfo.Types[kv.Value]
+		if vtv.Value != nil {
+			if vtv.Value.Kind() != constant.Bool || !constant.BoolVal(vtv.Value) {
+				continue // reserved["x"] = false: not a member of a bool set
+			}
+		} else if _, isStruct := vtv.Type.Underlying().(*types.Struct); !isStruct {
+			return nil
+		}
+		keys = append(keys, constant.StringVal(ktv.Value))
+	}
+	return keys
 }
